@@ -18,7 +18,11 @@ history-independence theorem are in ErrorModels/DistEnds.v), attributes required
 CALLER-OWNED CONSTRUCTOR ARGUMENTS -- the limit in every accepted container (tuple, list, float64 / int64 / float32
 ndarray, already normalised or not), refilled by the caller after construction and between calls, several objects built
 from one reused buffer -- every answer checked against the model on the values at construction time (snapshot
-semantics, DistEnds.v section World) and the caller's object required untouched.
+semantics, DistEnds.v section World) and the caller's object required untouched; and PROBABILITY ARGUMENT TYPES -- the
+probability handed over as int / bool / np.int64 / np.int32 / np.bool_ (end points), np.float64 / np.float32 / Fraction
+(any value), on fresh objects for every model and grid parameter and mixed into the histories (the per-object cache
+identifies 1, 1.0 and True) -- every answer checked like that of a float of the same value (binary32 tolerance 2^-20 for
+np.float32; Decimal, ndarray and unsigned NumPy integers are rejected by the unchanged tree and left out).
 A sample is re-checked inside Coq (vm_compute) with the verified checkers valid_dist / close_dist."""
 import json
 import math
@@ -180,6 +184,7 @@ def run(ctx):
                                        BitPhaseFlipErrorModel, BiasedDepolarizingErrorModel, BiasedYXErrorModel,
                                        CenterSliceErrorModel)
     rng = ctx.rng
+    import numpy as np
     import os
     import sys
     import time
@@ -200,7 +205,11 @@ def run(ctx):
                 'float / np.float64 / int, the caller overwriting or refilling its argument object after construction and '
                 'between calls, 2-5 objects built from one or two reused buffers with answers read in between or only at '
                 'the end: every answer and attribute is checked against the model on the values held at construction '
-                'time, and the argument object must never be written by the implementation; '
+                'time, and the argument object must never be written by the implementation; probability argument types: every model '
+                'and grid parameter at p = 0 and 1 given as int, bool, np.int64, np.int32, np.bool_, np.float64, np.float32, Fraction '
+                'and at interior / neighbouring p as np.float64, np.float32 (value rounded to binary32, binary32 tolerance 2^-20), '
+                'Fraction, on fresh objects and mixed into the histories (the cache identifies 1, 1.0, True): checked like a float '
+                'of the same value (biased-Y-X: float32 / Fraction only at zero bias or p = 0); '
                 'bias log-uniform in [1e-6,1e12] (biased-depolarizing, all axes, both cases) and in [1e-2,1e2] plus 0 '
                 '(Y-X healthy region, p in [0.01,0.99]) with the cancellation region (F3) swept separately; slice '
                 'limits with one or two zeros, pos in [-1,1] incl. 0, +-1, +-1e-12; constructor stream (negative / nan / '
@@ -269,9 +278,38 @@ def run(ctx):
         if seen_keys[key] <= 2:
             ctx.violation(key, what, rep)
 
-    def call_pd(model, p):
+    # PROBABILITY ARGUMENT TYPES.  The probability is a number in [0,1]; callers (the SMWPM decoders among them:
+    # probability_distribution(1)) hand it over as a Python int or bool, a NumPy integer / bool / float64 / float32
+    # scalar (np.linspace, np.arange, array elements) or a Fraction.  `p` is always the exact binary64 value; `p_as`
+    # names the type it is handed over in; the expected value (property text, engine) depends on the value only.
+    # Left out because the unchanged tree rejects them (measured): decimal.Decimal (TypeError float*Decimal in every
+    # model with a float parameter), ndarray of any shape (unhashable under lru_cache), unsigned NumPy integers
+    # (biased-Y-X: -4 * np.uint8 overflows).
+    PTYPES = {'float': float, 'int': int, 'bool': bool, 'np.int64': np.int64, 'np.int32': np.int32, 'np.bool_': np.bool_,
+              'np.float64': np.float64, 'np.float32': np.float32, 'Fraction': F}
+    P_INTLIKE = ('int', 'bool', 'np.int64', 'np.int32', 'np.bool_')        # can hold the end points 0 and 1 only
+    P_REAL = ('np.float64', 'np.float32', 'Fraction')                     # any p (float32: after rounding p to binary32)
+
+    def p_value(p, p_as):
+        """the exact binary64 value that is handed over when p is given as p_as (binary32 rounds p first)"""
+        return float(np.float32(p)) if p_as == 'np.float32' else float(p)
+
+    def p_arg(p, p_as):
+        return PTYPES[p_as](int(p) if p_as in P_INTLIKE else p)
+
+    def p_tol(p_as, t=T50, rel=REL):
+        """NumPy evaluates every formula on a float32 scalar in binary32: results carry binary32 rounding"""
+        return (max(t, REL32), max(rel, REL32)) if p_as == 'np.float32' else (t, rel)
+
+    def p_types_for(p):
+        return (P_INTLIKE if p in (0.0, 1.0) else ()) + P_REAL
+
+    def p_tag(params, p_as):
+        return params if p_as == 'float' else dict(params, p_as=p_as)
+
+    def call_pd(model, p, p_as='float'):
         try:
-            return model.probability_distribution(p), None
+            return model.probability_distribution(p_arg(p, p_as)), None
         except Exception as e:  # noqa
             return None, e
 
@@ -345,30 +383,36 @@ def run(ctx):
     def hkey(hist):
         return () if hist is None else ('h', hist.hid, len(hist.ops))
 
-    def simple_case(name, cls, tok, shape, p, kind, inst=None, hist=None):
+    def simple_case(name, cls, tok, shape, p, kind, inst=None, hist=None, p_as='float'):
         m = cls() if inst is None else inst
-        d, e = call_pd(m, p)
-        ctx.count((name, p) + hkey(hist), nontriv(p, True), kind,
-                  {'model': name, 'p': p, 'dist': [float(v) for v in d]} if p == 0.4 and hist is None and d else None)
+        p = p_value(p, p_as)
+        t, rel = p_tol(p_as)
+        d, e = call_pd(m, p, p_as)
+        ctx.count((name, p, p_as) + hkey(hist), nontriv(p, True), kind,
+                  {'model': name, 'p': p, 'dist': [float(v) for v in d]}
+                  if p == 0.4 and hist is None and d and p_as == 'float' else None)
         if e is not None:
-            viol('exception', 'probability_distribution raised %s' % exc_class(e), with_hist({'model': name, 'p': p}, hist))
+            viol('exception', 'probability_distribution raised %s' % exc_class(e),
+                 with_hist(p_tag({'model': name, 'p': p}, p_as), hist))
             return
-        fd = direct_common(name, {}, p, d, {}, hist=hist)
+        fd = direct_common(name, p_tag({}, p_as), p, d, {}, t=t, hist=hist)
         if fd is None:
             return
         pf = F(p)
         want = shape(pf)
-        rep = with_hist({'model': name, 'p': p, 'p_hex': float(p).hex(), 'got': [repr(v) for v in d]}, hist)
+        rep = with_hist(p_tag({'model': name, 'p': p, 'p_hex': float(p).hex(), 'got': [repr(v) for v in d]}, p_as), hist)
         if name == 'depolarizing':
             if not (fd[1] == fd[2] == fd[3]):
                 viol('depolarizing-thirds', 'X, Y, Z probabilities are not equal', rep)
         for i in (1, 2, 3):
             if want[i] == 0 and fd[i] != 0:
                 viol('pure-model-leak', 'Pr(%s) != 0 in a pure model' % LET[i], rep)
-            if not relclose(fd[i], F(want[i]), pf):
+            if not relclose(fd[i], F(want[i]), pf, rel):
                 viol('shape', 'Pr(%s) is not the documented value' % LET[i], rep)
-        model_cmp(name, {}, p, fd, '%s %s' % (tok, qtok(pf)), {}, sample=('hist' if hist is not None else p in pgrid), hist=hist)
-        if len(fkern) < 4000:
+        model_cmp(name, p_tag({}, p_as), p, fd, '%s %s' % (tok, qtok(pf)), {},
+                  sample=(False if p_as == 'np.float32' else 'hist' if hist is not None or p_as != 'float' else p in pgrid),
+                  t=t, hist=hist, rel=rel)
+        if len(fkern) < 4000 and p_as == 'float':
             fkern.append(('%sF %s' % ({'depol': 'depolarizing', 'bitflip': 'bit_flip', 'phaseflip': 'phase_flip',
                                        'bitphase': 'bit_phase_flip'}[tok], coq_f(p)), tuple(d)))
 
@@ -378,21 +422,25 @@ def run(ctx):
 
     lap('simple')
     # ---- 2. biased depolarizing ----------------------------------------------------------------
-    def biased_case(bias, axis, p, kind, sample=False, inst=None, hist=None):
+    def biased_case(bias, axis, p, kind, sample=False, inst=None, hist=None, p_as='float'):
+        p = p_value(p, p_as)
+        t, rel = p_tol(p_as)
+        if p_as != 'float':
+            sample = False if p_as == 'np.float32' else 'hist'
         try:
             m = BiasedDepolarizingErrorModel(bias, axis) if inst is None else inst
         except Exception as e:  # noqa
             viol('ctor-domain', 'documented parameters rejected: %s' % exc_class(e), {'model': 'biased', 'bias': bias, 'axis': axis})
             return
-        d, e = call_pd(m, p)
-        params = {'bias': bias, 'bias_hex': float(bias).hex(), 'axis': axis}
-        ctx.count(('biased', bias, axis, p) + hkey(hist), nontriv(p, True), kind,
+        d, e = call_pd(m, p, p_as)
+        params = p_tag({'bias': bias, 'bias_hex': float(bias).hex(), 'axis': axis}, p_as)
+        ctx.count(('biased', bias, axis, p, p_as) + hkey(hist), nontriv(p, True), kind,
                   {'model': 'biased', 'bias': bias, 'axis': axis, 'p': p, 'dist': [float(v) for v in d]}
                   if sample is True and p == 0.4 and d else None)
         if e is not None:
             viol('exception', 'probability_distribution raised %s' % exc_class(e), with_hist(dict(params, model='biased', p=p), hist))
             return
-        fd = direct_common('biased', params, p, d, {'negI': 'F2-biased-negative-pI-at-p1'}, hist=hist)
+        fd = direct_common('biased', params, p, d, {'negI': 'F2-biased-negative-pI-at-p1'}, t=t, hist=hist)
         if fd is None:
             return
         pf, bf = F(p), F(bias)
@@ -404,12 +452,14 @@ def run(ctx):
             viol('biased-low-rates', 'the two off-axis probabilities differ', rep)
         # bias = high rate / sum of the low rates (division free, relative 1e-9; a binary64 low rate carries an
         # absolute representation error of up to 2^-1075 (half the subnormal quantum), which the bias multiplies)
-        if not relclose(hi, bf * (lo[0] + lo[1]), pf) and abs(hi - bf * (lo[0] + lo[1])) > bf * F(4, 2 ** 1075):
+        # (binary32 results: each low rate carries a relative rounding error 2^-24, which the bias multiplies)
+        if (not relclose(hi, bf * (lo[0] + lo[1]), pf, rel) and abs(hi - bf * (lo[0] + lo[1])) > bf * F(4, 2 ** 1075)
+                and not (p_as == 'np.float32' and abs(hi - bf * (lo[0] + lo[1])) <= REL32 * (hi + bf * (lo[0] + lo[1])))):
             viol('biased-ratio', 'high-rate / (sum of low rates) != bias', rep)
-        if not relclose(hi + lo[0] + lo[1], pf, pf):
+        if not relclose(hi + lo[0] + lo[1], pf, pf, rel):
             viol('biased-sum', 'X+Y+Z != p', rep)
-        model_cmp('biased', params, p, fd, 'biased %s %s %s' % (qtok(bf), ax, qtok(pf)), {}, sample=sample, hist=hist)
-        if isinstance(bias, float) and len(fkern) < 4000:
+        model_cmp('biased', params, p, fd, 'biased %s %s %s' % (qtok(bf), ax, qtok(pf)), {}, sample=sample, t=t, hist=hist, rel=rel)
+        if isinstance(bias, float) and len(fkern) < 4000 and p_as == 'float':
             fkern.append(('biasedF %s A%s %s' % (coq_f(bias), ax, coq_f(p)), tuple(d)))
 
     biased_grid = (0.5, 1.0, 10.0, 100.0, 0.001, 1e-6, 1e12, 3.0, 1 / 3)
@@ -446,16 +496,20 @@ def run(ctx):
     F3KEYS = {'neg': 'F3-yx-negative', 'negI': 'F3-yx-negative', 'negXYZ': 'F3-yx-negative',
               'acc': 'F3-yx-inaccurate', 'nan': 'F3-yx-inaccurate'}
 
-    def yx_case(bias, p, kind, sample=False, inst=None, hist=None):
+    def yx_case(bias, p, kind, sample=False, inst=None, hist=None, p_as='float'):
+        p = p_value(p, p_as)
+        t44, rel = p_tol(p_as, T44)
+        if p_as != 'float':
+            sample = False if p_as == 'np.float32' else 'hist'
         healthy = yx_healthy(bias, p)
         try:
             m = BiasedYXErrorModel(bias) if inst is None else inst
         except Exception as e:  # noqa
             viol('ctor-domain', 'documented parameters rejected: %s' % exc_class(e), {'model': 'biased-yx', 'bias': bias})
             return
-        d, e = call_pd(m, p)
-        params = {'bias': bias, 'bias_hex': float(bias).hex()}
-        ctx.count(('yx', bias, p) + hkey(hist), nontriv(p, bias != 0), kind,
+        d, e = call_pd(m, p, p_as)
+        params = p_tag({'bias': bias, 'bias_hex': float(bias).hex()}, p_as)
+        ctx.count(('yx', bias, p, p_as) + hkey(hist), nontriv(p, bias != 0), kind,
                   {'model': 'biased-yx', 'bias': bias, 'p': p, 'dist': [float(v) for v in d]}
                   if sample is True and p == 0.4 and d else None)
         rep = with_hist(dict(params, model='biased-yx', p=p, p_hex=float(p).hex(), got=[repr(v) for v in d] if d else None), hist)
@@ -474,7 +528,7 @@ def run(ctx):
         if e is not None:
             viol(keys.get('exc', 'exception'), 'probability_distribution raised %s: %s' % (exc_class(e), e), rep)
             return
-        fd = direct_common('biased-yx', params, p, d, keys, t=T44, hist=hist)
+        fd = direct_common('biased-yx', params, p, d, keys, t=t44, hist=hist)
         if fd is None:
             return
         pf, bf = F(p), F(bias)
@@ -482,13 +536,13 @@ def run(ctx):
             if fd[1] != pf or fd[2] != 0 or fd[3] != 0:
                 viol('special-zero-bias', 'zero bias is not pure X noise', rep)
             ask('yx 0/1 %s 0/1' % qtok(pf), lambda ans, fd=fd, rep=rep, pf=pf: (
-                None if close_dist(pf, fd, [tokq(t_) for t_ in ans.split()])
+                None if close_dist(pf, fd, [tokq(t_) for t_ in ans.split()], t44, rel)
                 else ctx.cmp('biased-yx', rep, ' '.join(qtok(v) for v in fd), ans)))
             return
         # documented system on the floats: independent flips with rates rx = pX + pZ, ry = pY + pZ
         rx, ry = fd[1] + fd[3], fd[2] + fd[3]
-        ok = (relclose(fd[2], bf * fd[1], pf) and relclose(fd[3], rx * ry, pf) and relclose(fd[1], rx * (1 - ry), pf)
-              and relclose(fd[2], ry * (1 - rx), pf) and relclose(fd[1] + fd[2] + fd[3], pf, pf)
+        ok = (relclose(fd[2], bf * fd[1], pf, rel) and relclose(fd[3], rx * ry, pf, rel) and relclose(fd[1], rx * (1 - ry), pf, rel)
+              and relclose(fd[2], ry * (1 - rx), pf, rel) and relclose(fd[1] + fd[2] + fd[3], pf, pf, rel)
               and 0 <= rx <= 1 and 0 <= ry <= 1)
         if not ok:
             viol(keys.get('acc', 'yx-shape'), 'Y:X != bias or X, Y flips not independent or X+Y+Z != p (relative 1e-9)', rep)
@@ -507,7 +561,7 @@ def run(ctx):
             yx_tiny[0] -= 1
         s = isqrt_frac(disc, bits) if disc > 0 else F(0)
         model_cmp('biased-yx', params, p, fd, 'yx %s %s %s' % (qtok(bf), qtok(pf), qtok(s)), keys,
-                  sample=(sample if healthy or not keys else False), t=T44, hist=hist)
+                  sample=(sample if healthy or not keys else False), t=t44, hist=hist, rel=rel)
 
     yx_grid = (0.0, 0.01, 0.1, 0.5, 1.0, 2.0, 10.0, 100.0)
     for bias in yx_grid:
@@ -555,15 +609,19 @@ def run(ctx):
         r = [C3 + abs(pf) * (end[k] - C3) for k in range(3)]
         return L, N, r
 
-    def slice_case(lim, pos, p, kind, sample=False, inst=None, hist=None, rel=REL):
+    def slice_case(lim, pos, p, kind, sample=False, inst=None, hist=None, rel=REL, p_as='float'):
+        p = p_value(p, p_as)
+        rel = p_tol(p_as, rel=rel)[1]
+        if p_as != 'float':
+            sample = False if p_as == 'np.float32' or not sample else 'hist'
         try:
             m = CenterSliceErrorModel(lim, pos) if inst is None else inst
         except Exception as e:  # noqa
             viol('ctor-domain', 'documented parameters rejected: %s' % exc_class(e), {'model': 'slice', 'lim': list(lim), 'pos': pos})
             return
-        d, e = call_pd(m, p)
-        params = {'lim': list(lim), 'pos': pos, 'pos_hex': float(pos).hex()}
-        ctx.count(('slice', tuple(lim), pos, p) + hkey(hist), nontriv(p, pos != 0), kind,
+        d, e = call_pd(m, p, p_as)
+        params = p_tag({'lim': list(lim), 'pos': pos, 'pos_hex': float(pos).hex()}, p_as)
+        ctx.count(('slice', tuple(lim), pos, p, p_as) + hkey(hist), nontriv(p, pos != 0), kind,
                   {'model': 'slice', 'lim': list(lim), 'pos': pos, 'p': p, 'dist': [float(v) for v in d]}
                   if sample is True and p == 0.4 and d else None)
         rep = with_hist(dict(params, model='slice', p=p, p_hex=float(p).hex(), got=[repr(v) for v in d] if d else None), hist)
@@ -736,7 +794,8 @@ def run(ctx):
     def desc_simple(k):
         name, cls, tok, shape = simple[k]
         return {'spec': {'model': name}, 'make': cls, 'attrs': {}, 'slice': None, 'rand_p': hist_p, 'names': ['label', 'repr'],
-                'pd': lambda m, p, h: simple_case(name, cls, tok, shape, p, 'history-pd', inst=m, hist=h)}
+                'ptypes': p_types_for,
+                'pd': lambda m, p, h, a='float': simple_case(name, cls, tok, shape, p, 'history-pd', inst=m, hist=h, p_as=a)}
 
     SCALARS = {'float': float, 'np.float64': np.float64, 'int': int}
 
@@ -744,7 +803,8 @@ def run(ctx):
         return {'spec': {'model': 'biased', 'bias': bias, 'bias_hex': float(bias).hex(), 'axis': axis, 'bias_as': as_},
                 'make': lambda: BiasedDepolarizingErrorModel(SCALARS[as_](bias), axis), 'attrs': {'bias': bias, 'axis': axis.upper()},
                 'slice': None, 'rand_p': hist_p, 'names': ['bias', 'axis', 'label', 'repr'],
-                'pd': lambda m, p, h: biased_case(bias, axis, p, 'history-pd', sample='hist', inst=m, hist=h)}
+                'ptypes': p_types_for,
+                'pd': lambda m, p, h, a='float': biased_case(bias, axis, p, 'history-pd', sample='hist', inst=m, hist=h, p_as=a)}
 
     def desc_yx(bias, as_='float'):
         # the F3 fingerprint (yx_pinned) is the binary64 outcome for a Python float bias: other scalar types stay in
@@ -753,13 +813,29 @@ def run(ctx):
                 'make': lambda: BiasedYXErrorModel(SCALARS[as_](bias)), 'attrs': {'bias': bias}, 'slice': None,
                 'rand_p': hist_p_yx if as_ == 'float' else (lambda: rng.uniform(0.01, 0.99)),
                 'names': ['bias', 'label', 'repr'],
-                'pd': lambda m, p, h: yx_case(bias, p, 'history-pd', sample='hist', inst=m, hist=h)}
+                'ptypes': lambda p: yx_ptypes(bias, p),
+                'pd': lambda m, p, h, a='float': yx_case(bias, p, 'history-pd', sample='hist', inst=m, hist=h, p_as=a)}
 
     def desc_slice(lim, pos):
         return {'spec': {'model': 'slice', 'lim': list(lim), 'pos': pos, 'pos_hex': float(pos).hex()},
                 'make': lambda: CenterSliceErrorModel(lim, pos), 'attrs': {'pos': pos}, 'slice': (lim, pos), 'rand_p': hist_p,
                 'names': ['pos', 'label', 'repr', 'lim', 'neg_lim', 'ratio', 'ratio,lim', 'lim,neg_lim,ratio', 'ratio,neg_lim,lim'],
-                'pd': lambda m, p, h: slice_case(lim, pos, p, 'history-pd', sample='hist', inst=m, hist=h)}
+                'ptypes': p_types_for,
+                'pd': lambda m, p, h, a='float': slice_case(lim, pos, p, 'history-pd', sample='hist', inst=m, hist=h, p_as=a)}
+
+    def yx_ptypes(bias, p):
+        """biased-Y-X evaluates its closed forms in the arithmetic of the probability's type: binary32 (and a Fraction
+        under math.sqrt) is outside what the F3 fingerprint describes, so these two are used where the closed forms
+        are not evaluated (zero bias) or are exact (p = 0)"""
+        return tuple(a for a in p_types_for(p) if a not in ('np.float32', 'Fraction') or bias == 0 or p == 0)
+
+    def typed(d_, p, prob=0.3):
+        """p, or (p, type it is handed over in), for a request on a LIVE object.  np.float32 is not used here: its
+        answers are binary32-accurate and the cache (np.float32(1) == 1.0, equal hashes) hands such an answer to a later
+        float request of the same value (observation recorded in extra['float32_cache_aliasing'], probed below); on
+        fresh objects binary32 probabilities are covered by section (o)"""
+        ts = tuple(a for a in d_['ptypes'](p) if a != 'np.float32')
+        return (p, rng.choice(ts)) if ts and rng.random() < prob else p
 
     def rand_desc():
         r = rng.randrange(8)
@@ -783,7 +859,7 @@ def run(ctx):
         for p in ps:
             if rng.random() < 0.35:
                 ops.append((0, 'attr', rng.choice(descs[0]['names'])))
-            ops.append((0, 'pd', p))
+            ops.append((0, 'pd', typed(descs[0], p, 0.6 if p in (0.0, 1.0) else 0.25)))
         return ops + final_reads(descs)
 
     def rand_ops(descs, n):
@@ -793,7 +869,7 @@ def run(ctx):
             if rng.random() < 0.65:
                 p = rng.choice(asked[i_]) if asked[i_] and rng.random() < 0.2 else descs[i_]['rand_p']()
                 asked[i_].append(p)
-                ops.append((i_, 'pd', p))
+                ops.append((i_, 'pd', typed(descs[i_], p, 0.7 if p in (0.0, 1.0) else 0.3)))
             else:
                 ops.append((i_, 'attr', rng.choice(descs[i_]['names'])))
         return ops + final_reads(descs)
@@ -840,9 +916,11 @@ def run(ctx):
         for (i_, what, arg) in ops:
             d_, m = descs[i_], insts[i_]
             if what == 'pd':
-                hist.ops.append((i_, 'pd', float(arg).hex()))
-                d_['pd'](m, arg, hist)
-                scribble(call_pd(m, arg)[0])
+                arg, p_as = arg if isinstance(arg, tuple) else (arg, 'float')
+                arg = p_value(arg, p_as)
+                hist.ops.append((i_, 'pd', float(arg).hex() + ('' if p_as == 'float' else ' as ' + p_as)))
+                d_['pd'](m, arg, hist, p_as)
+                scribble(call_pd(m, arg, p_as)[0])
                 continue
             hist.ops.append((i_, 'attr', arg))
             attr_op(d_, m, arg, hist, ref[i_], first[i_])
@@ -851,6 +929,88 @@ def run(ctx):
         ps = rng.sample(pgrid + endpoints, min(k, len(pgrid) + len(endpoints))) + [gen() for _ in range(max(0, k // 3))]
         rng.shuffle(ps)
         return ps
+
+    # (o) PROBABILITY ARGUMENT TYPES on fresh objects.  probability_distribution is cached per (object, probability) and
+    # 1 == 1.0 == True == np.int64(1) share one cache entry, so a typed probability is only evaluated when it is the first
+    # request for that value on its object: every (model, parameter, p, type) below gets an object of its own (the
+    # histories below mix the types on live objects, in both orders).  Every model and every grid parameter value at
+    # both end points in every type that can hold them, and at interior / neighbouring probabilities in the real-valued
+    # types; random parameter values likewise.  The answer is checked exactly like that of a float probability of the
+    # same value: property text on the returned numbers, engine on the exact value.
+    def typed_ps(types_fn, n_in):
+        out = [(p, a) for p in (0.0, 1.0) for a in types_fn(p)]
+        inner = [math.nextafter(0.0, 1.0), math.nextafter(1.0, 0.0)] + rng.sample([0.5, 0.25, 0.1, 0.4, 1 / 3, 0.75, 0.9, 0.01, 0.99], n_in)
+        inner += [rng.uniform(0.01, 0.99)]
+        for p in inner:
+            ts = types_fn(p)
+            if ts:
+                out.append((p, rng.choice(ts)))
+        return out
+
+    try:
+        m_ = DepolarizingErrorModel()
+        first_ = m_.probability_distribution(np.float32(1.0))
+        again_ = m_.probability_distribution(1.0)
+        ctx.extra['float32_cache_aliasing'] = {
+            'history': 'm = DepolarizingErrorModel(); m.probability_distribution(np.float32(1.0)); m.probability_distribution(1.0)',
+            'second_answer': [repr(v) for v in again_], 'sum_minus_1': float(sum(F(float(v)) for v in again_) - 1),
+            'fresh_object_answer': [repr(v) for v in DepolarizingErrorModel().probability_distribution(1.0)],
+            'note': 'not reported as a violation: binary32 probabilities are kept out of the live-object histories'}
+    except Exception as e:  # noqa
+        ctx.extra['float32_cache_aliasing'] = 'probe raised %s' % exc_class(e)
+    for name, cls, tok, shape in simple:
+        for p, a in typed_ps(p_types_for, 6) + [(p, a) for p in (0.5, 0.1, 2.0 ** -1074, 1 - 2.0 ** -53) for a in P_REAL]:
+            simple_case(name, cls, tok, shape, p, 'ptype-simple', p_as=a)
+    for axis in 'XYZ':
+        for bias in biased_grid:
+            for p, a in typed_ps(p_types_for, 2):
+                biased_case(bias, axis, p, 'ptype-biased', p_as=a)
+    for _ in range(30 * scale):
+        bias, axis = rng.choice([10 ** rng.uniform(-6, 12), float(rng.randint(1, 64)), rng.randint(1, 64)]), rng.choice('XYZxyz')
+        for p in (0.0, 1.0, rand_p()):
+            biased_case(bias, axis, p, 'ptype-biased', p_as=rng.choice(p_types_for(p)))
+    for bias in yx_grid + (0.3, 3.0, 1e-3, 1e3, 0, 1, 2):
+        for p, a in typed_ps(lambda p: yx_ptypes(bias, p), 2):
+            if a != 'float' and (p in (0.0, 1.0) or yx_healthy(bias, p)):
+                yx_case(bias, p, 'ptype-yx', p_as=a)
+    for _ in range(30 * scale):
+        bias = rng.choice([10 ** rng.uniform(-2, 2), float(rng.randint(1, 64)), rng.randint(0, 64), 1 / rng.randint(1, 64)])
+        for p in (0.0, 1.0, rng.uniform(0.01, 0.99)):
+            yx_case(bias, p, 'ptype-yx', p_as=rng.choice(yx_ptypes(bias, p)))
+    for lim in fixed_lims:
+        for pos in fixed_pos:
+            for p, a in typed_ps(p_types_for, 1):
+                slice_case(lim, pos, p, 'ptype-slice', sample=True, p_as=a)
+    for _ in range(40 * scale):
+        lim, pos = rand_lim(), rand_pos()
+        for p in (0.0, 1.0, rand_p()):
+            slice_case(lim, pos, p, 'ptype-slice', p_as=rng.choice(p_types_for(p)))
+    # the documented special cases at typed end points, stated directly (nothing taken from another implementation object):
+    # a unit limit at position 1 is exactly the pure single-Pauli distribution, position 0 and bias 1/2 are equal thirds
+    for p, a in [(p, a) for p in (0.0, 1.0) for a in p_types_for(p)] + [(p, a) for p in (0.5, 0.1, rng.random()) for a in P_REAL]:
+        pv = p_value(p, a)
+        t_, rel_ = p_tol(a)
+        for k, lim in enumerate(((1, 0, 0), (0, 1, 0), (0, 0, 1))):
+            for lm in (lim, tuple(7.5 * v for v in lim)):
+                d, e = call_pd(CenterSliceErrorModel(lm, 1), pv, a)
+                ctx.count(('ptype-unit', lm, pv, a), nontriv(pv, True), 'ptype-special')
+                fs = frac_dist(d) if e is None else None
+                want = [1 - F(pv)] + [F(pv) if j == k else F(0) for j in range(3)]
+                if fs is None or abs(fs[0] - want[0]) > t_ or fs[1:] != want[1:]:
+                    viol('special-unit-lim', 'a unit limit at pos 1 is not the pure single-Pauli model',
+                         {'model': 'slice', 'lim': list(lm), 'pos': 1, 'p': pv, 'p_hex': pv.hex(), 'p_as': a,
+                          'got': [repr(v) for v in d] if d else exc_class(e)})
+        thirds = [1 - F(pv)] + [F(pv) / 3] * 3
+        lim_, ax_ = rand_lim(), rng.choice('XYZ')
+        for m_, spec_, key in ((CenterSliceErrorModel(lim_, 0), {'model': 'slice', 'lim': list(lim_), 'pos': 0}, 'special-pos0'),
+                               (BiasedDepolarizingErrorModel(0.5, ax_), {'model': 'biased', 'bias_hex': (0.5).hex(), 'axis': ax_},
+                                'special-bias-half')):
+            d, e = call_pd(m_, pv, a)
+            ctx.count((key, repr(m_), pv, a), nontriv(pv, True), 'ptype-special')
+            fs = frac_dist(d) if e is None else None
+            if fs is None or not close_dist(F(pv), fs, thirds, t_, rel_):
+                viol(key, '%r is not the depolarizing distribution' % m_,
+                     dict(spec_, p=pv, p_hex=pv.hex(), p_as=a, got=[repr(v) for v in d] if d else exc_class(e)))
 
     # (i) sweeps of one object over p, every model and every grid parameter value
     for k in range(4):
@@ -1006,19 +1166,21 @@ def run(ctx):
                 continue
             m, snap, pos, rel = o['m'], o['snap'], o['pos'], o['rel']
             if op[0] == 'pd':
-                p = op[2]
-                hist.ops.append((op[1], 'pd', float(p).hex()))
-                slice_case(snap, pos, p, 'argown-pd', sample=('hist' if rel == REL else False), inst=m, hist=hist, rel=rel)
-                d, e = call_pd(m, p)
+                p, p_as = op[2] if isinstance(op[2], tuple) else (op[2], 'float')
+                p = p_value(p, p_as)
+                hist.ops.append((op[1], 'pd', float(p).hex() + ('' if p_as == 'float' else ' as ' + p_as)))
+                slice_case(snap, pos, p, 'argown-pd', sample=('hist' if rel == REL else False), inst=m, hist=hist, rel=rel, p_as=p_as)
+                d, e = call_pd(m, p, p_as)
                 fs = frac_dist(d) if e is None else None
                 if fs is not None:
-                    rep = with_hist(dict(o['d']['spec'], p=p, p_hex=float(p).hex(), got=[repr(v) for v in d]), hist)
+                    rep = with_hist(p_tag(dict(o['d']['spec'], p=p, p_hex=float(p).hex(), got=[repr(v) for v in d]), p_as), hist)
                     nzs = [k for k in range(3) if snap[k] != 0]
                     if pos == 1 and len(nzs) == 1:
                         fp = frac_dist(PURE[nzs[0]]().probability_distribution(p))
-                        if fs[1:] != fp[1:] or abs(fs[0] - fp[0]) > T50:
+                        if fs[1:] != fp[1:] or abs(fs[0] - fp[0]) > p_tol(p_as)[0]:
                             viol('special-unit-lim', 'a unit limit at pos 1 is not the pure single-Pauli model', rep)
-                    if pos == 0 and not close_dist(F(p), fs, frac_dist(DepolarizingErrorModel().probability_distribution(p))):
+                    if pos == 0 and not close_dist(F(p), fs, frac_dist(DepolarizingErrorModel().probability_distribution(p)),
+                                                   *p_tol(p_as, T50, rel)):
                         viol('special-pos0', 'pos 0 is not the depolarizing distribution', rep)
                 scribble(d)
                 check_buffers('probability_distribution')
@@ -1040,7 +1202,8 @@ def run(ctx):
     def queries(i_, n):
         out = []
         for _ in range(n):
-            out.append(('pd', i_, hist_p()) if rng.random() < 0.55 else ('attr', i_, rng.choice(SL_NAMES)))
+            out.append(('pd', i_, typed({'ptypes': p_types_for}, hist_p(), 0.3)) if rng.random() < 0.55
+                       else ('attr', i_, rng.choice(SL_NAMES)))
         return out
 
     def plan_single(c, normalised):
@@ -1323,6 +1486,18 @@ def replay(path):
         return {'depolarizing': DepolarizingErrorModel, 'bit-flip': BitFlipErrorModel, 'phase-flip': PhaseFlipErrorModel,
                 'bit-phase-flip': BitPhaseFlipErrorModel}[name]()
 
+    from fractions import Fraction
+    ptypes = {'float': float, 'int': int, 'bool': bool, 'np.int64': np.int64, 'np.int32': np.int32, 'np.bool_': np.bool_,
+              'np.float64': np.float64, 'np.float32': np.float32, 'Fraction': Fraction}
+
+    def pconv(p, p_as):
+        return ptypes[p_as](int(p) if p_as in ('int', 'bool', 'np.int64', 'np.int32', 'np.bool_') else p)
+
+    def parg(arg):
+        """'<hex>' or '<hex> as <type>' -> the probability in the type it was handed over in"""
+        h_, _, a_ = arg.partition(' as ')
+        return pconv(float.fromhex(h_), a_ or 'float')
+
     if isinstance(r.get('history'), dict):
         # an operation history over live objects: rebuild the pool and run the operations again, in order
         try:
@@ -1348,13 +1523,13 @@ def replay(path):
                               'holds %r afterwards' % (k, i, arg, pool[i].pos, sp['lim'], bufs[arg]))
                         continue
                     if what == 'pd':
-                        out = pool[i].probability_distribution(float.fromhex(arg))
+                        out = pool[i].probability_distribution(parg(arg))
                     else:
                         out = [repr(pool[i]) if nm == 'repr' else getattr(pool[i], nm) for nm in arg.split(',')]
                 except Exception as e:  # noqa
                     out = '%s: %s' % (type(e).__name__, e)
                 print('now: op %d%s object %d %s %s -> %r' % (k, ' (failing)' if k == h.get('failing_op') else '', i, what,
-                                                                float.fromhex(arg) if what == 'pd' else arg, out))
+                                                                repr(parg(arg)) if what == 'pd' else arg, out))
         except Exception as e:  # noqa
             print('replay: %s: %s' % (type(e).__name__, e))
         return 0
@@ -1368,6 +1543,10 @@ def replay(path):
     try:
         name = r.get('model')
         p = float.fromhex(r['p_hex']) if 'p_hex' in r else r.get('p')
+        p_as = r.get('p_as') or (r.get('params') or {}).get('p_as') or 'float'
+        p = pconv(p, p_as)
+        if 'bias_hex' not in r and isinstance(r.get('params'), dict):
+            r = dict(r, **r['params'])
         if name == 'biased':
             m = BiasedDepolarizingErrorModel(float.fromhex(r['bias_hex']), r['axis'])
         elif name == 'biased-yx':
@@ -1377,7 +1556,7 @@ def replay(path):
         else:
             m = {'depolarizing': DepolarizingErrorModel, 'bit-flip': BitFlipErrorModel, 'phase-flip': PhaseFlipErrorModel,
                  'bit-phase-flip': BitPhaseFlipErrorModel}[name]()
-        print('now:', m, p, m.probability_distribution(p))
+        print('now: %r.probability_distribution(%r) -> %r' % (m, p, m.probability_distribution(p)))
     except Exception as e:  # noqa
         print('replay: %s: %s' % (type(e).__name__, e))
     return 0
